@@ -150,13 +150,17 @@ def verdict_lines(res: T.Any) -> T.Tuple[T.List[T.Dict[str, T.Any]], int]:
 # ---------------------------------------------------------------------------
 # judging
 
-def signature(c: T.Dict[str, T.Any], v: T.Dict[str, T.Any], vers: T.List[str]) -> T.Tuple[str, T.Dict[str, T.Any]]:
-    """Signature = clause + the normalised cause computed by the trace spec (never concrete numbers)."""
+def signature(c: T.Dict[str, T.Any], v: T.Dict[str, T.Any], item: T.Dict[str, T.Any],
+              vers: T.List[str]) -> T.Tuple[str, T.Dict[str, T.Any]]:
+    """Signature = clause + the normalised cause computed by the trace spec (never concrete numbers).
+    v: the verdict of the case, item: one class of disagreement within it (with its first witness)."""
     clause = v.get('clause', '?')
+    k = item.get('class', {})
+    wit = item.get('witness', 0)
     info: T.Dict[str, T.Any] = {'kind': c.get('k')}
     if clause == 'SemVerOrder':
-        w = v['where']
-        exp, got = v['expected'], v['got'] % 64
+        w = k['where']
+        exp, got = k['expected'], k['got']
         kinds = [w['kx'], w['ky']]
         if kinds[0] > kinds[1] or (kinds[0] == kinds[1] and exp > 0):   # one signature for both orientations of a pair
             kinds.reverse()
@@ -170,20 +174,22 @@ def signature(c: T.Dict[str, T.Any], v: T.Dict[str, T.Any], vers: T.List[str]) -
         else:
             sig = f"SemVerOrder@{w['at']}[{w['idx']}]:{kinds[0]}/{kinds[1]}:expected={ {-1: 'lt', 0: 'eq', 1: 'gt'}[exp] }:got={rel}"
         if c['k'] == 'svrow':
-            info.update(a=vers[c['a'] - 1], b=vers[v['witness'] - 1])
+            info.update(a=vers[c['a'] - 1], b=vers[wit - 1])
         else:
-            strings = [txt(s) for s in c['s']]
-            pairs = [(0, 1), (1, 0), (1, 2), (2, 1), (0, 2), (2, 0)][v['witness'] - 1]
-            info.update(a=strings[pairs[0]], b=strings[pairs[1]])
+            strings = [txt(x) for x in c['s']]
+            pair = [(0, 1), (1, 0), (1, 2), (2, 1), (0, 2), (2, 0)][wit - 1]
+            info.update(a=strings[pair[0]], b=strings[pair[1]])
         return sig, info
-    if clause in ('ReqMatch', 'PreReleaseNeedsPre'):
-        shapes = sorted(f"{s['op']}/n{s['n']}/{'pre' if s['pre'] else 'rel'}/{ {-1: 'below', 0: 'same', 1: 'above'}[s['side']] }"
-                        for s in v['shapes'])
-        sig = (f"{clause}@expected={'T' if v['expected'] else 'F'}:got={'T' if v['got'] else 'F'}:"
-               f"version={'pre' if v['vpre'] else 'release'}:comparators=[{', '.join(shapes)}]")
-        info.update(requirement=txt(c['r']), version=vers[v['witness'] - 1], cargo_itself_says=v.get('cargo'))
+    if clause == 'ReqMatch':
+        shapes = sorted(f"{x['op']}/n{x['n']}/{'pre' if x['pre'] else 'rel'}/{ {-1: 'below', 0: 'same', 1: 'above'}[x['side']] }"
+                        for x in k['shapes'])
+        name = 'PreReleaseNeedsPre' if k['needspre'] else 'ReqMatch'
+        sig = (f"{name}@expected={'T' if k['expected'] else 'F'}:got={'T' if k['got'] else 'F'}:"
+               f"version={'pre' if k['vpre'] else 'release'}:comparators=[{', '.join(shapes)}]")
+        info.update(requirement=txt(c['r']), version=vers[wit - 1], cargo_itself_says=k.get('cargo'))
         return sig, info
-    if clause.startswith('Cfg'):
+    if clause == 'Cfg':
+        kind = k['kind']
         if v.get('badChar'):
             ch = chr(v['badCharCode'])
             cause = 'character no token can start with: ' + ('digit' if ch.isdigit() else 'unterminated quote' if ch == '"' else
@@ -191,19 +197,19 @@ def signature(c: T.Dict[str, T.Any], v: T.Dict[str, T.Any], vers: T.List[str]) -
         elif v.get('stringHasDelimiter'):
             cause = 'string literal containing a blank or one of ( ) , ='
         else:
-            cause = f"got={v.get('got')}:allowed={''.join(sorted(v.get('allowed', [])))}"
-        if clause == 'CfgRaisedOtherException':
+            cause = f"got={k.get('got')}:allowed={''.join(sorted(k.get('allowed', [])))}"
+        if kind == 'CfgRaisedOtherException':
             cause += ':' + (c.get('exc') or '').split(':')[0]
-        sig = f'{clause}@{cause}'
+        sig = f'{kind}@{cause}'
         cfgs = c['cfgs'] or None
-        info.update(text=txt(c['text']), config_index=v.get('witness'),
-                    config=None if cfgs is None else {txt(e['n']): txt(e['v']) for e in cfgs[v['witness'] - 1]},
+        info.update(text=txt(c['text']), config_index=wit, got=k.get('got'), allowed=k.get('allowed'),
+                    config=None if cfgs is None else {txt(e['n']): txt(e['v']) for e in cfgs[wit - 1]},
                     exception=c.get('exc'))
         return sig, info
     if clause.startswith('SemVerAxiom'):
-        info.update(strings=[txt(s) for s in c['s']], codes=c['codes'])
+        info.update(strings=[txt(x) for x in c['s']], codes=c['codes'])
         return f"{clause}@{' | '.join(info['strings'])}", info
-    return f"{clause}@{json.dumps({k: c[k] for k in c if k not in ('codes', 'acc', 'got')}, sort_keys=True)[:160]}", info
+    return f"{clause}@{json.dumps({x: c[x] for x in c if x not in ('codes', 'acc', 'got')}, sort_keys=True)[:160]}", info
 
 
 INPUT_KEYS = {'svrow': ['a'], 'svtri': ['s'], 'req': ['r'], 'cfg': ['text', 'cfgs']}
@@ -244,11 +250,12 @@ def judge(chk: Check, cases: T.List[T.Dict[str, T.Any]], vers: T.List[str], conf
         if v.get('clause', '').startswith('spec-') or v.get('clause') == 'unknown-case-kind':
             raise MachineryError(f"the generator produced an input the specification does not cover: {v} / "
                                  f"{ {k: c.get(k) for k in INPUT_KEYS.get(c.get('k'), [])} }")
-        sig, info = signature(c, v, vers)
         keep = {k: c[k] for k in ['k'] + INPUT_KEYS.get(c['k'], []) if k in c}
         small = c['k'] in ('svtri', 'cfg')
-        chk.violation(sig, {'verdict': v, 'inputs': info, 'case': keep, 'vers': [] if small else vers,
-                            'configs': configs if c['k'] == 'cfg' else []})
+        for item in (v.get('items') or [{}]):
+            sig, info = signature(c, v, item, vers)
+            chk.violation(sig, {'verdict': {x: v[x] for x in v if x != 'items'}, 'class': item, 'inputs': info, 'case': keep,
+                                'vers': [] if small else vers, 'configs': configs if c['k'] == 'cfg' else []})
 
 
 # ---------------------------------------------------------------------------
@@ -491,6 +498,24 @@ def gen_cfg(rnd: random.Random, n: int) -> T.List[T.Dict[str, T.Any]]:
     return cases
 
 
+def fixed_probes() -> T.List[T.Dict[str, T.Any]]:
+    """A handful of fixed inputs at the corners the random generators only reach by luck, so that every run
+    (any seed, any tier) exercises - and reports - the same classes."""
+    def cfgcase(text: str, cfg: T.Dict[str, str]) -> T.Dict[str, T.Any]:
+        return {'k': 'cfg', 'text': cp(text), 'cfgs': [[{'n': cp(n), 'v': cp(v)} for n, v in cfg.items()], []]}
+    lin = {'target_os': 'linux', 'unix': '', 'feature': 'a,b', 'a': 'x'}
+    cases = [cfgcase(t, lin) for t in [
+        'cfg(target_os = "linux")', 'cfg(target_os = " linux")', 'cfg(target_os = "linux ")', 'cfg(feature = "a,b")',
+        'cfg(any(windows, feature = "a b"))', 'cfg(a"= x")', 'cfg(unix")', 'cfg(a-b)', 'cfg(1a)', 'cfg(all(unix, target_os = "linux",))',
+        'cfg(all)', 'cfg( all )', 'cfg(not(any))', 'cfg(all(unix target_os))', 'cfg(unix) ', 'cfg()', 'cfg(target_env = "")',
+        'cfg(not(not(not(not(not(unix))))))', 'cfg(unix = "")', 'cfg(= "x")', 'cfg("x")', 'cfg(unix,)', 'cfg(unix unix)']
+        if t.startswith('cfg(') and t.endswith(')')]
+    for trip in [['1.0.0-a.0b', '1.0.0-a.1', '1.0.0-a.0'], ['1.0.0-10', '1.0.0-9', '1.0.0-9a'], ['1.0.0-rc.10', '1.0.0-rc.9', '1.0.0-rc'],
+                 ['2.0.0', '2.0.0-0', '2.0.0+0'], ['1.0.0-alpha', '1.0.0-alpha.1', '1.0.0-alpha.beta'], ['1.0.0-0a', '1.0.0-1', '1.0.0-00x']]:
+        cases.append({'k': 'svtri', 's': [cp(x) for x in trip]})
+    return cases
+
+
 # ---------------------------------------------------------------------------
 
 def mc_cfg(invariants: T.List[str], consts: str, post: str = '') -> str:
@@ -588,7 +613,7 @@ def main(chk: Check) -> None:
 
         # ---- (A3) all cfg token sequences up to the bound
         n_impl = 4 if quick else 5
-        n_sampled = 0 if quick else 300000      # sequences of n_impl + 1 tokens, seeded sample
+        n_sampled = 0 if quick else 150000      # sequences of n_impl + 1 tokens, seeded sample
         k = len(alphabet)
         chk.extra.update(impl_cfg_exhaustive_tokens=n_impl, impl_cfg_sampled_longer=n_sampled)
         for n in range(0, n_impl + 2):
@@ -616,8 +641,13 @@ def main(chk: Check) -> None:
                 chk.evaluations += len(batch) * len(configs)
                 judge(chk, batch, [], configs, f'A-cfg{n}.{part_no}')
 
+        # ---- fixed probes
+        done = run_cases(ex, fixed_probes(), [], [])
+        chk.evaluations += len(done)
+        judge(chk, done, [], [], 'P')
+
         # ---- 3. (B) random
-        nb = 1 if quick else 6
+        nb = 1 if quick else 4
         for bno in range(nb):
             brnd = random.Random(chk.seed * 7919 + bno + 1)
             tri = run_cases(ex, gen_semver_triples(brnd, 3000 if quick else 10000), [], [])
